@@ -121,6 +121,8 @@ def fingerprint_delta():
 
 
 def main(prop, tier, seed, replay=None):
+    import warnings
+    warnings.filterwarnings("ignore")      # RuntimeWarnings of NumPy inside the code under test are not verdicts
     import signal
     signal.signal(signal.SIGPIPE, signal.SIG_DFL)     # `./check Cxx | head` must not end in a traceback
     t0 = time.time()
